@@ -8,7 +8,7 @@ use crate::common_file_operations::{
 };
 use crate::{ByteBuffer, ByteSpan};
 use binrw::{BinRead, BinReaderExt, BinWrite, binread};
-use binrw::{Endian, Error, binrw};
+use binrw::{BinResult, Endian, Error, binrw};
 
 mod aetheryte;
 pub use aetheryte::AetheryteInstanceObject;
@@ -81,7 +81,7 @@ pub struct HeapString {
     // TODO: this cast is stupid
     #[bw(calc = string_heap.get_free_offset_string(value) as u32)]
     pub offset: u32,
-    #[br(calc = string_heap.read_string(r, offset,))]
+    #[br(try_calc = string_heap.read_string(r, offset))]
     #[bw(ignore)]
     pub value: String,
 }
@@ -159,21 +159,19 @@ impl StringHeap {
         obj
     }
 
-    pub fn read_args<R, T>(&self, reader: &mut R, offset: i32) -> T
+    pub fn read_args<R, T>(&self, reader: &mut R, offset: i32) -> BinResult<T>
     where
         R: Read + Seek,
         T: for<'a> BinRead<Args<'a> = (&'a StringHeap,)>,
     {
-        let old_pos = reader.stream_position().unwrap();
-        reader
-            .seek(SeekFrom::Start((self.pos as i32 + offset) as u64))
-            .unwrap();
-        let obj = reader.read_le_args::<T>((self,)).unwrap();
-        reader.seek(SeekFrom::Start(old_pos)).unwrap();
-        obj
+        let old_pos = reader.stream_position()?;
+        reader.seek(SeekFrom::Start((self.pos as i64 + offset as i64) as u64))?;
+        let obj = reader.read_le_args::<T>((self,))?;
+        reader.seek(SeekFrom::Start(old_pos))?;
+        Ok(obj)
     }
 
-    pub fn read_string<R>(&self, reader: &mut R, offset: u32) -> String
+    pub fn read_string<R>(&self, reader: &mut R, offset: u32) -> BinResult<String>
     where
         R: Read + Seek,
     {
@@ -181,16 +179,16 @@ impl StringHeap {
 
         let mut string = String::new();
 
-        let old_pos = reader.stream_position().unwrap();
+        let old_pos = reader.stream_position()?;
 
-        reader.seek(SeekFrom::Start(offset)).unwrap();
-        let mut next_char = reader.read_le::<u8>().unwrap() as char;
+        reader.seek(SeekFrom::Start(offset))?;
+        let mut next_char = reader.read_le::<u8>()? as char;
         while next_char != '\0' {
             string.push(next_char);
-            next_char = reader.read_le::<u8>().unwrap() as char;
+            next_char = reader.read_le::<u8>()? as char;
         }
-        reader.seek(SeekFrom::Start(old_pos)).unwrap();
-        string
+        reader.seek(SeekFrom::Start(old_pos))?;
+        Ok(string)
     }
 }
 
@@ -513,7 +511,7 @@ struct LayerHeader {
     #[br(temp)]
     #[bw(calc = data_heap.get_free_offset_args(&layer_set_referenced_list))]
     pub layer_set_referenced_list_offset: i32,
-    #[br(calc = data_heap.read_args(r, layer_set_referenced_list_offset))]
+    #[br(try_calc = data_heap.read_args(r, layer_set_referenced_list_offset))]
     #[bw(ignore)]
     pub layer_set_referenced_list: LayerSetReferencedList,
     pub festival_id: u16,
@@ -651,7 +649,7 @@ impl LayerGroup {
     pub fn from_existing(buffer: ByteSpan) -> Option<LayerGroup> {
         let mut cursor = Cursor::new(buffer);
 
-        let file_header = LgbHeader::read(&mut cursor).unwrap();
+        let file_header = LgbHeader::read(&mut cursor).ok()?;
         if file_header.file_size <= 0 || file_header.total_chunk_count <= 0 {
             return None;
         }
@@ -660,7 +658,7 @@ impl LayerGroup {
         let chunk_string_heap = StringHeap::from(cursor.position() + 8);
 
         let chunk_header =
-            LayerChunkHeader::read_le_args(&mut cursor, (&chunk_string_heap,)).unwrap();
+            LayerChunkHeader::read_le_args(&mut cursor, (&chunk_string_heap,)).ok()?;
 
         if chunk_header.chunk_size <= 0 {
             return None;
@@ -676,15 +674,17 @@ impl LayerGroup {
 
         let mut layer_offsets = vec![0i32; chunk_header.layer_count as usize];
         for i in 0..chunk_header.layer_count {
-            layer_offsets[i as usize] = cursor.read_le::<i32>().unwrap();
+            layer_offsets[i as usize] = cursor.read_le::<i32>().ok()?;
         }
 
         let mut layers = Vec::new();
 
         for i in 0..chunk_header.layer_count {
             cursor
-                .seek(SeekFrom::Start(old_pos + layer_offsets[i as usize] as u64))
-                .unwrap();
+                .seek(SeekFrom::Start(
+                    old_pos.checked_add_signed(layer_offsets[i as usize] as i64)?,
+                ))
+                .ok()?;
 
             let old_pos = cursor.position();
 
@@ -692,7 +692,7 @@ impl LayerGroup {
             let data_heap = StringHeap::from(old_pos);
 
             let header =
-                LayerHeader::read_le_args(&mut cursor, (&data_heap, &string_heap)).unwrap();
+                LayerHeader::read_le_args(&mut cursor, (&data_heap, &string_heap)).ok()?;
 
             let mut objects = Vec::new();
             // read instance objects
@@ -706,21 +706,21 @@ impl LayerGroup {
 
                 let mut instance_offsets = vec![0i32; header.instance_object_count as usize];
                 for i in 0..header.instance_object_count {
-                    instance_offsets[i as usize] = cursor.read_le::<i32>().unwrap();
+                    instance_offsets[i as usize] = cursor.read_le::<i32>().ok()?;
                 }
 
                 for i in 0..header.instance_object_count {
                     cursor
                         .seek(SeekFrom::Start(
                             old_pos
-                                + header.instance_object_offset as u64
-                                + instance_offsets[i as usize] as u64,
+                                .checked_add_signed(header.instance_object_offset as i64)?
+                                .checked_add_signed(instance_offsets[i as usize] as i64)?,
                         ))
-                        .unwrap();
+                        .ok()?;
 
-                    let start = cursor.stream_position().unwrap();
+                    let start = cursor.stream_position().ok()?;
 
-                    objects.push(InstanceObject::read_le_args(&mut cursor, (start,)).unwrap());
+                    objects.push(InstanceObject::read_le_args(&mut cursor, (start,)).ok()?);
                 }
             }
 
@@ -728,11 +728,11 @@ impl LayerGroup {
             {
                 cursor
                     .seek(SeekFrom::Start(
-                        old_pos + header.ob_set_referenced_list as u64,
+                        old_pos.checked_add_signed(header.ob_set_referenced_list as i64)?,
                     ))
-                    .unwrap();
+                    .ok()?;
                 for _ in 0..header.ob_set_referenced_list_count {
-                    OBSetReferenced::read(&mut cursor).unwrap();
+                    OBSetReferenced::read(&mut cursor).ok()?;
                 }
             }
 
@@ -740,11 +740,11 @@ impl LayerGroup {
             {
                 cursor
                     .seek(SeekFrom::Start(
-                        old_pos + header.ob_set_enable_referenced_list as u64,
+                        old_pos.checked_add_signed(header.ob_set_enable_referenced_list as i64)?,
                     ))
-                    .unwrap();
+                    .ok()?;
                 for _ in 0..header.ob_set_enable_referenced_list_count {
-                    OBSetEnableReferenced::read(&mut cursor).unwrap();
+                    OBSetEnableReferenced::read(&mut cursor).ok()?;
                 }
             }
 
